@@ -154,8 +154,9 @@ def check(run):
             all_ok = False
             run.fail("PAIR", "call.y_true", f"{s.path}:{up.line}", fq, f"y_true = {ir.show_nl(yt) if yt else None}",
                      f"[{gtxt}] the metric is updated with {ir.show_nl(yt) if yt else None} instead of the true label")
-        dict_mode = ("field0", df) in p.guards if df else None
-        scalar_mode = ("not", ("field0", df)) in p.guards if df else None
+        from .boolalg import holds, excluded
+        dict_mode = holds(p.guards, ("field0", df)) if df else None
+        scalar_mode = excluded(p.guards, ("field0", df)) if df else None
         if scalar_mode:
             ok2 = yp is not None and yp[0] == "res" and yp[2] == ".get" and yp[3][0] == y_pred and \
                 len(yp[3]) >= 2 and yp[3][1] == label and (len(yp[3]) < 3 or const_value(yp[3][2]) == 0)
